@@ -313,6 +313,18 @@ def kaiser_varimax(L):
     return float(np.sum((B**2).mean(axis=0) - B.mean(axis=0) ** 2))
 
 
+def varimax_stationarity(L):
+    """Relative asymmetry of B^H (B o (|B|^2 - mean|B|^2)) for the Kaiser-normalised loadings B: zero at a
+    stationary point of the Varimax criterion.  Advisory only (convergence is declared on the criterion's increments)."""
+    L = np.asarray(L)
+    h = np.sqrt((np.abs(L) ** 2).sum(axis=1))
+    ok = h > 0
+    B = L[ok] / h[ok, None]
+    B2 = np.abs(B) ** 2
+    T = B.conj().T @ (B * (B2 - B2.mean(axis=0)))
+    return float(np.linalg.norm(T - T.conj().T) / max(np.linalg.norm(T), np.finfo(float).tiny))
+
+
 def raw_varimax(L):
     L = np.asarray(L)
     B = np.abs(L) ** 2
@@ -364,6 +376,15 @@ def _descending(obs, name, v, tags):
 
 # --------------------------------------------------------------------------- the case
 def run_case(case, obs):
+    try:
+        _run_case(case, obs)
+    finally:
+        if case["scale_exp"] <= -6:
+            # head-room statistics of the small-magnitude slice (a known-defect region) are kept apart
+            obs.worst = {"smallscale/" + k: v for k, v in obs.worst.items()}
+
+
+def _run_case(case, obs):
     fam, base_name, rot_name = case["fam"], case["base"], case["rot"]
     power, k, K = case["power"], case["k"], case["K"]
     kind = "hilbert" if base_name.startswith("Hilbert") else ("complex" if base_name.startswith("Complex") else "real")
@@ -586,6 +607,8 @@ def run_case(case, obs):
         if power == 1:
             obs.close("expvar_sum_conserved", measure.sum(), ev_in.sum(), TOL, tags=dict(op="explained_variance", symptom="variance_sum_changed"))
             obs.close("loading_energy_conserved", (np.abs(Lrot) ** 2).sum(), (np.abs(L) ** 2).sum(), TOL, tags=dict(op="_promax", symptom="variance_sum_changed"))
+    if power == 1:
+        obs.note("stationarity", varimax_stationarity(Lrot))
     if power == 1 and not cplx_load:
         v0, v1 = kaiser_varimax(np.real(L)), kaiser_varimax(np.real(Lrot))
         obs.note("kaiser_gain", v1 - v0)
@@ -633,6 +656,7 @@ def evidence_extra(results, extras):
     devs = [r["info"]["RhR_minus_I"] for r in results if r["case"]["power"] > 1 and "RhR_minus_I" in r.get("info", {})]
     raw = [r["info"]["raw_gain_rel"] for r in results if "raw_gain_rel" in r.get("info", {})]
     kg = [r["info"]["kaiser_gain"] for r in results if "kaiser_gain" in r.get("info", {})]
+    st = [r["info"]["stationarity"] for r in results if "stationarity" in r.get("info", {}) and r["case"]["compute"]]
     gaps = [r["info"]["rel_gap_in"] for r in results if "rel_gap_in" in r.get("info", {})]
     return {
         "promax_max_rel_change_of_variance_sum": max(ratios) if ratios else None,
@@ -640,5 +664,6 @@ def evidence_extra(results, extras):
         "raw_varimax_criterion_decreased_in": int(sum(1 for x in raw if x < -1e-12)),
         "kaiser_criterion_min_gain": min(kg) if kg else None,
         "smallest_relative_gap_of_input_modes": min(gaps) if gaps else None,
+        "varimax_stationarity_residual_max_advisory": max(st) if st else None,
         "refused": int(sum(1 for r in results if r["status"] == "refused")),
     }
